@@ -9,7 +9,7 @@ runs the stage on
     stage notices them
   * the six importer repairs (commits ceccdfa 06102e3 20d6429 54b9ca8 a659dce b1fb110 of /repo) REVERTED one at a time
                                                          -> must be detected
-Usage:  PYTHONPATH=/verif/harness /venv/bin/python harness/translate_conv_selftest.py [--only substring] [--no-seeded] [--no-reverts]
+Usage:  PYTHONPATH=/verif/harness /venv/bin/python harness/translate_conv_selftest.py [--only substring] [--skip-mutations] [--no-seeded] [--no-reverts]
 Exit status 0 iff every expectation holds.
 """
 import os
@@ -199,7 +199,7 @@ def main():
             print(r0)
             return 1
         ndet = nok = 0
-        for m in MUTATIONS + EXTRA_MUTATIONS:
+        for m in ([] if "--skip-mutations" in sys.argv else MUTATIONS + EXTRA_MUTATIONS):
             if only and only not in m[0] and only not in m[5]:
                 continue
             backup = apply_mutation(m)
@@ -228,7 +228,7 @@ def main():
                 diff = subprocess.run(["git", "-C", "/repo", "show", "--format=", commit], capture_output=True, text=True).stdout
                 files = re.findall(r"^\+\+\+ b/(\S+)", diff, flags=re.M)
                 backup = {f: ((COPY / f).read_text() if (COPY / f).exists() else None) for f in files}
-                pr = subprocess.run(["patch", "-R", "-p1", "-s", "--no-backup-if-mismatch"], input=diff, cwd=COPY, capture_output=True, text=True)
+                pr = subprocess.run(["patch", "-R", "-p1", "-s", "-F3", "--no-backup-if-mismatch"], input=diff, cwd=COPY, capture_output=True, text=True)
                 try:
                     if pr.returncode != 0:
                         print(f"{commit} reverse patch does not apply: {pr.stdout[-200:]}")
